@@ -220,7 +220,14 @@ class InterpCurve(Family):
                 p = npts + rng.randint(0, 1)
             if mal == "identical":
                 pts = [list(pts[0]) for _ in pts]
-            out.append({"pts": pts, "p": p, "cent": cent, "data": data, "mal": mal, "small": npts <= 4})
+            if mal is None and not cent and i % 13 == 7 and npts >= 4:
+                # near-duplicate final sample: the last chord is 2^-21 (< 10e-8 of the total chord length), so the last but one
+                # parameter lies within 1e-7 of the domain end - still a valid, strictly increasing configuration.  Checked by
+                # the exact oracle only (the collocation matrix has condition number ~1e7)
+                pts = polyline(rng, npts, dim, False)
+                pts[-1] = [pts[-2][0] + 2.0 ** -21] + list(pts[-2][1:])
+                data, p = "neardup", min(p, 3)
+            out.append({"pts": pts, "p": p, "cent": cent, "data": data, "mal": mal, "small": npts <= 4 and data != "neardup"})
         return out
 
     def impl(self, c):
@@ -429,6 +436,11 @@ class InterpSurface(Family):
             pv = rng.randint(1, min(5, sv - 1))
             if pu == pv and pv > 1:
                 pv -= 1
+            if i % 6 == 5:
+                # the smallest grids with the same degree in both directions: both knot vectors are [0]*(p+1) + [1]*(p+1),
+                # only the parameters (hence the collocation matrices) differ between u and v
+                pu = pv = rng.choice([2, 3, 4] if data != "pyth" else [2, 3])
+                su = sv = pu + 1
             out.append({"pts": surface_points(rng, su, sv, dim, cent, data), "su": su, "sv": sv, "pu": pu, "pv": pv,
                         "cent": cent, "data": data, "small": su * sv <= 12})
         return out
